@@ -346,19 +346,19 @@ Definition scalar_code {A} (r : rctx) (tok : bstring) : sval A :=
 
 (* _GD_SetScalar by class; None = format error *)
 Definition set_cplx (r : rctx) (tok : bstring) : option (sval cplx) :=
-  match tok_to_num (r_base0 r) true tok with
+  match tok_to_num (r_base0 r) true true tok with
   | NotNum => Some (scalar_code r tok)
   | BadNum => None
   | Num re im => Some (SLit (part_dbl re, match im with None => 0 | Some p => part_dbl p end))
   end.
 Definition set_dbl (r : rctx) (tok : bstring) : option (sval Z) :=
-  match tok_to_num (r_base0 r) false tok with
+  match tok_to_num (r_base0 r) true false tok with
   | NotNum => Some (scalar_code r tok)
   | BadNum => None
   | Num re _ => Some (SLit (part_dbl re))
   end.
 Definition set_signed (r : rctx) (bits : Z) (tok : bstring) : option (sval Z) :=
-  match tok_to_num (r_base0 r) false tok with
+  match tok_to_num (r_base0 r) false false tok with
   | NotNum => Some (scalar_code r tok)
   | BadNum => None
   | Num (PInt v) _ => Some (SLit (wrap_signed bits v))
@@ -366,7 +366,7 @@ Definition set_signed (r : rctx) (bits : Z) (tok : bstring) : option (sval Z) :=
   | Num (PUInt _) _ => None
   end.
 Definition set_unsigned (r : rctx) (bits : Z) (tok : bstring) : option (sval Z) :=
-  match tok_to_num (r_base0 r) false tok with
+  match tok_to_num (r_base0 r) false false tok with
   | NotNum => Some (scalar_code r tok)
   | BadNum => None
   | Num (PUInt v) _ => Some (SLit (v mod 2 ^ bits))
